@@ -718,7 +718,7 @@ func (lb *LoadBalancer) refreshBackendHealth() {
 func (lb *LoadBalancer) proxyRequest(backend *Backend, w http.ResponseWriter, r *http.Request, startTime time.Time) error {
 	// Track the active connection
 	backend.IncrementConnections()
-	lb.metricsCollector.UpdateBackendConnections(backend.Name, backend.GetActiveConnections())
+	lb.metricsCollector.AddBackendConnections(backend.Name, 1)
 
 	// Create a custom response writer to capture the status code
 	rw := &responseWriter{
@@ -733,7 +733,7 @@ func (lb *LoadBalancer) proxyRequest(backend *Backend, w http.ResponseWriter, r 
 	defer func() {
 		// Decrement the connection count when done
 		backend.DecrementConnections()
-		lb.metricsCollector.UpdateBackendConnections(backend.Name, backend.GetActiveConnections())
+		lb.metricsCollector.AddBackendConnections(backend.Name, -1)
 
 		if !completed {
 			// Aborted response: a failed request
